@@ -1764,6 +1764,31 @@ _sh_abs, _sh_sqrt, _sh_cbrt, _sh_exp, _sh_log, _sh_sin, _sh_cos, _sh_tan, _sh_si
     (_sh_abs, _sh_sqrt, _sh_cbrt, _sh_exp, _sh_log, _sh_sin, _sh_cos, _sh_tan, _sh_sign, _sh_conj, _sh_float)]
 
 
+def _np_binary(f):
+    """numpy's two-argument element-wise functions (np.maximum, np.minimum): arrays broadcast against scalars"""
+    def g(ex, node, x, y):
+        if isinstance(x, NdArr) or isinstance(y, NdArr):
+            n_ = len(x) if isinstance(x, NdArr) else len(y)
+            xs = list(x) if isinstance(x, NdArr) else [x] * n_
+            ys = list(y) if isinstance(y, NdArr) else [y] * n_
+            if len(xs) != len(ys):
+                raise SymExError("operands could not be broadcast together")
+            return NdArr([f(ex, node, a_, b_) for a_, b_ in zip(xs, ys)])
+        return f(ex, node, x, y)
+    return g
+
+
+def _np_reduce(f):
+    """np.max / np.min / np.amax / np.amin over a 1-D array (a scalar is its own maximum)"""
+    def g(ex, node, x, axis=None):
+        if isinstance(x, (NdArr, list, tuple)):
+            if len(x) == 0:
+                raise SymExError("reduction of an empty array")
+            return f(ex, node, *list(x))
+        return x
+    return g
+
+
 def _sh_np_any(ex, node, x):
     return _sh_any(ex, node, list(x) if isinstance(x, (list, tuple)) else [x])
 
@@ -1784,7 +1809,7 @@ _NP = {
     "sin": _sh_sin, "cos": _sh_cos, "tan": _sh_tan, "real": _sh_real, "imag": _sh_imag, "conj": _sh_conj,
     "conjugate": _sh_conj, "pi": T.PI, "sign": _sh_sign, "isnan": _sh_isnan, "power": _sh_power,
     "asarray": _sh_identity, "ascontiguousarray": _sh_identity, "copy": _sh_identity, "ones_like": _sh_ones_like,
-    "zeros_like": _sh_zeros_like, "float64": _sh_float, "complex128": "complex128", "maximum": _sh_max, "minimum": _sh_min,
+    "zeros_like": _sh_zeros_like, "float64": _sh_float, "complex128": "complex128", "maximum": _np_binary(_sh_max), "minimum": _np_binary(_sh_min), "max": _np_reduce(_sh_max), "min": _np_reduce(_sh_min), "amax": _np_reduce(_sh_max), "amin": _np_reduce(_sh_min),
     "any": _sh_np_any, "all": _sh_np_all,
     "ndarray": "ndarray", "inf": sp.oo, "e": None, "empty": _sh_empty, "zeros": _sh_empty, "complex128_t": "complex128",
 }
